@@ -69,6 +69,14 @@ CHECKS = {
             "The module is loaded and SSA-built under each GOOS/GOARCH pair (quick 14, thorough all of 'go tool dist list'). Per target: the 15 exported constants as go/types evaluates them equal the UAPI oracle (errno per Linux architecture); on targets whose GOARCH has a table the real compiler, executed from that target's SSA, yields program signatures identical to linux/amd64's for the same table and byte order and satisfies the SMT-decided equivalence obligations on a sample of shapes; on stub targets Supported/LoadFilter/SetNoNewPrivs make no call that leaves the library and report unsupported; a policy without explicit architecture is rejected with an error and no program on every target without a table.",
             "Findings on foreign targets cannot be replayed natively on this host (engine results only). Program obligations apply only where a policy can be compiled through the public API (GOARCH amd64/386/arm/arm64). Trusted: go/packages+go/types, engine, oracle constants, solvers.",
             "per-build-target go/types constant evaluation + SMT-based symbolic execution of each target's SSA (z3 + cvc5)"),
+    "C15": (MC, "4 (C15)",
+            "The real main() of cmd/sandbox is executed symbolically over every combination of failures of its environment (missing/malformed file, unpack error, parser error with or without a returned pointer, unknown syscall, every kernel answer below the real LoadFilter, exec failure; argv of 0..3): on every path exec happens only after a successful parse and a successful load, with the parsed policy, TSYNC and the flag's no_new_privs, and any failure ends in a non-zero exit without exec. Control flow is concrete per path, so the solver's role is path feasibility (kernel answers); the coverage is the exhaustive set of failure combinations.",
+            "Stubs for flag, go-ucfg, exec, os.Exit (contract: fail or deliver). That the filter survives execve and what the target observes is kernel behaviour, outside.",
+            "symbolic execution of the real main() over all environment-failure combinations (go/ssa engine; z3 + cvc5 for path feasibility)"),
+    "C16": (MC, "4 (C16)",
+            "The real Parse/parseX86_64 run over L <= 2/3 symbolic lines delivered by a model scanner that may stop anywhere with or without an error. A line is an SMT string constrained only by regular-language memberships derived from the literals the current source uses; z3 5.1 decides each path's feasibility and obligations for ALL line contents: no panic, read failure => error and no partial result, findSyscallNum is only given lines of the current function, every reported syscall is in the table under its name, appended lines never remove earlier results.",
+            "findSyscallNum (regexp + ParseInt) is summarised as 'arbitrary number or error'; alphabet = printable ASCII + space + tab; L bounded (no induction over the number of lines). String obligations are decided by z3 5.1.0 alone (no cross-check).",
+            "SMT string/regular-language solving over symbolic lines with the real parser executed from go/ssa (z3 5.1)"),
 }
 
 NOT_BUILT = "check not built yet (work in progress)"
